@@ -231,6 +231,9 @@ def sign(v):
 
 def check_comparator(ctx, cmpf, roles):
     ctx.analysed_func(cmpf)
+    from ..core import desugar_ifexp, inline_bool_temps, unroll_const_loops
+
+    cmpf = desugar_ifexp(inline_bool_temps(unroll_const_loops(cmpf)))
     if len(cmpf.params) < 2:
         raise AnalysisError("R08.1", cmpf.where(), "comparator does not take two records")
     p1, p2 = cmpf.params[:2]
@@ -465,9 +468,9 @@ def check_provenance(ctx):
         raise AnalysisError("R08.2", "gaftools/cli/sort.py", "cannot find the key-extraction call (tuple unpacking from a program function)")
     f, asg, pa = sort_f
     ctx.analysed_func(pa)
-    from ..core import inlined
+    from ..core import desugar_ifexp, inlined, tail_inlined
 
-    pa = inlined(repo, pa)  # look-up helpers such as `bo, no = keys(nodes, path[1])` are seen through
+    pa = desugar_ifexp(inlined(repo, tail_inlined(repo, pa)))  # look-up helpers such as `bo, no = keys(nodes, path[1])` are seen through
     where = pa.where()
     # the branch on scaffold orientation majority
     branch = None
@@ -557,7 +560,15 @@ def check_provenance(ctx):
     line_p = pa.params[0]
     import re as _re
 
-    for which, body, idx_ok, cols_want in (("forward", fwd_body, {"1"}, {7}), ("reverse", rev_body, {"-1"}, {6, 8})):
+    # statements that follow the branch in its statement list run after either arm (hoisted common tails)
+    tail = []
+    for nd in ast.walk(pa.node):
+        for fld in ("body", "orelse"):
+            lst = getattr(nd, fld, None)
+            if isinstance(lst, list) and any(x is branch for x in lst):
+                tail = [x for x in lst[lst.index(branch) + 1 :] if isinstance(x, ast.Assign)]
+    for which, body0, idx_ok, cols_want in (("forward", fwd_body, {"1"}, {7}), ("reverse", rev_body, {"-1"}, {6, 8})):
+        body = list(body0) + tail
         bdefs = local_defs(ast.Module(body=body, type_ignores=[]))
         found = {}
         for st in walk_stmts(body):
